@@ -1250,7 +1250,7 @@ class Interp(Engine):
                 return cv
             if _norm_lib(full) in ('numpy.random', 'numpy.linalg', 'scipy.stats', 'scipy.sparse', 'scipy.linalg',
                                    'scipy.sparse.linalg', 'os.path', 'scipy.spatial', 'scipy.spatial.distance',
-                                   'scipy.optimize', 'scipy.special', 'scipy.stats.t', 'scipy.io'):
+                                   'scipy.optimize', 'scipy.special', 'scipy.stats.t', 'scipy.io', 'numpy.char', 'numpy.ma', 'numpy.fft'):
                 return ModV(full)
             return FuncV('lib', full)
         if isinstance(base, Obj):
